@@ -206,6 +206,15 @@ def run(c):
     except Exception as e:
         c.obligation("translator: verdict table of _needs_preaggregation_for_fanout regenerated", False, "translator", repr(e)[-900:])
     c.trusted.append("translator/pyinterp.py + gen_multifact.py (fail-closed definitional interpreter; validated against CPython each run)")
+    try:
+        from translator import gen_mfshape
+        lib.write_if_changed(os.path.join(lib.COQ, "Gen", "MultiFactShape_gen.v"), gen_mfshape.generate(lib.REPO))
+        c.obligation("translator: structure of the multi-fact statement (_generate_with_preaggregation, 260 scripted queries) regenerated", True, "translator")
+        same = gen_mfshape.table(lib.REPO) == gen_mfshape.table(lib.REPO, real=True)
+        c.obligation("translator validation: interpreted _generate_with_preaggregation == the real method under CPython on the same scripted queries", same, "translator")
+    except Exception as e:
+        c.obligation("translator: structure of the multi-fact statement regenerated", False, "translator", repr(e)[-900:])
+    c.trusted.append("gen_mfshape.py: generate(), segment resolution, filter classification, sqlglot's constructors and the instrumentation comment are scripted; the text -> structure parser (regular expressions) is trusted")
     c.build_props()
     n = 160 if c.tier == "quick" else 2500
     cases = []
